@@ -110,7 +110,28 @@ def check_comp_cases(ctx, srcs):
     compare_ev(ctx, ctx.driver, pairs, fixed_datasets(ctx.rng, 3), "lowering changed the value of the query (ev)")
 
 
+def literal_iter_template(rng) -> str:
+    """comprehensions over a written-out list, whose element holds a nested comprehension / lambda that re-uses the loop
+    variable's name (seed C06-w6-2: an unrolling that substitutes the variable without regard for inner binders)"""
+    v = rng.choice(["v", "x", "k", "e"])
+    w = v if rng.random() < 0.6 else rng.choice(["w", "y"])
+    lit = rng.choice(["[10, 20]", "[1, 2, 3]", "[0]", "[5, 5, 7]", "[e.met, 3]" if v != "e" else "[4, 3]"])
+    cond = rng.choice(["", "", f" if {v} > 2"])
+    ev = "e" if v != "e" and w != "e" else "q"
+    body = rng.choice([
+        f"[[{w} * 2 for {w} in {ev}.nums] for {v} in {lit}{cond}]",
+        f"[Count([{w} for {w} in {ev}.nums if {w} > {v}]) + {v} for {v} in {lit}{cond}]",
+        f"[(lambda {w}: {w} + 1)({v} + 1) + {v} for {v} in {lit}{cond}]",
+        f"[{ev}.nums.Select(lambda {w}: {w} + 1).Count() + {v} for {v} in {lit}{cond}]",
+        f"[{ev}.jets.Where(lambda {w}: {w}.pt > {v}).Count() for {v} in {lit}{cond}]",
+        f"[Sum([{w} + {v} for {w} in {ev}.nums]) for {v} in {lit}{cond}]",
+    ]).replace("[e.met, 3]", f"[{ev}.met, 3]")
+    return f"Select(ds, lambda {ev}: {body})"
+
+
 def gen_comp_src(rng):
+    if rng.random() < 0.08:
+        return literal_iter_template(rng)
     opt = Opt(form=rng.choice(["mixed", "method", "func"]), comps=True, comp_rate=rng.choice([0.2, 0.4, 0.6]),
               naming=rng.choice(["mixed", "reuse", "same"]), max_depth=rng.choice([2, 3, 4]))
     src, _ = gen_query(rng, opt, top_sort=rng.choice([None, ("seq", ("int",)), ("seq", ("seq", ("int",)))]))
